@@ -303,23 +303,27 @@ Notation iteration := (iteration eqb veq keyname flt chk merge ref l10n).
 Notation run := (run eqb veq keyname flt chk merge ref l10n).
 Notation acc := (@acc K).
 
+(* [iter x d]: d is the effect of the iteration for x, whatever [skips] held before *)
+Definition iter (x : label * K) (d : acc) : Prop := exists sk, iteration sk x = Ok d.
+
 Lemma run_spec (steps : list (label * K)) : forall (a r : acc),
   run a steps = Ok r ->
-  exists ds, Forall2 (fun x d => iteration x = Ok d) steps ds /\
+  exists ds, Forall2 iter steps ds /\
              r = fold_left acc_app ds a.
 Proof.
   induction steps as [|x steps IH]; intros a r H; cbn in H.
   - inversion H; subst. exists []. split; [constructor|reflexivity].
-  - destruct (iteration x) as [d|t] eqn:E; [|discriminate].
+  - destruct (iteration (a_skips a) x) as [d|t] eqn:E; [|discriminate].
     destruct (IH _ _ H) as (ds & HF & ->).
-    exists (d :: ds). split; [constructor; assumption|reflexivity].
+    exists (d :: ds). split; [constructor; [exists (a_skips a); exact E|assumption]|reflexivity].
 Qed.
 
 Lemma run_total (steps : list (label * K)) : forall a : acc,
-  (forall x, In x steps -> exists d, iteration x = Ok d) -> exists r, run a steps = Ok r.
+  (forall x, In x steps -> forall sk, exists d, iteration sk x = Ok d) ->
+  exists r, run a steps = Ok r.
 Proof.
   induction steps as [|x steps IH]; intros a H; cbn; [eauto|].
-  destruct (H x (or_introl eq_refl)) as [d ->].
+  destruct (H x (or_introl eq_refl) (a_skips a)) as [d ->].
   apply IH. intros y Hy. apply H. right; exact Hy.
 Qed.
 
@@ -375,7 +379,7 @@ Lemma getitem_lastw k (ents : list cent) :
   getitem eqb k ents = match lastw k ents with Some e => Ok e | None => Raise TypeError end.
 Proof. apply (kt_getitem_last eqb c_key). Qed.
 
-Lemma iteration_counts x d : iteration x = Ok d ->
+Lemma iteration_counts x d : iter x d ->
   s_missing (a_stats d) = b2n (p_missing x) /\
   s_missing_w (a_stats d) = (if p_missing x then wref (snd x) else 0) /\
   a_missings d = (if p_missing x then [snd x] else []) /\
@@ -387,6 +391,7 @@ Lemma iteration_counts x d : iteration x = Ok d ->
   s_changed (a_stats d) = b2n (p_changed x) /\
   s_changed_w (a_stats d) = (if p_changed x then wref (snd x) else 0).
 Proof.
+  intros [sk Hit]; revert Hit.
   destruct x as [lab k]. unfold iteration, Compare.iteration.
   rewrite !getitem_lastw.
   unfold p_missing, p_report, p_obsolete, p_keys, p_unchanged, p_changed, p_absent, p_extra,
@@ -413,10 +418,11 @@ Proof.
 Qed.
 
 (* the notifications of one iteration *)
-Lemma iteration_notes x d : iteration x = Ok d ->
+Lemma iteration_notes x d : iter x d ->
   forall k, (In (NMissing k) (a_notes d) <-> (snd x = k /\ p_absent x = true)) /\
             (In (NObsolete k) (a_notes d) <-> (snd x = k /\ p_extra x = true)).
 Proof.
+  intros [sk Hit]; revert Hit.
   destruct x as [lab k0]. unfold iteration, Compare.iteration.
   rewrite !getitem_lastw.
   unfold p_absent, p_extra, refjunk, l10njunk. cbn [fst snd].
@@ -458,9 +464,9 @@ Lemma iteration_ok lab k :
   In k (map c_key ref) \/ In k (map c_key l10n) ->
   lab = label_of eqb (map c_key ref) (map c_key l10n) k ->
   (lab = Equal -> refjunk k = true -> keyname k = true) ->
-  exists d, iteration (lab, k) = Ok d.
+  forall sk, exists d, iteration sk (lab, k) = Ok d.
 Proof.
-  intros Hin Hlab Hj. unfold iteration, Compare.iteration. rewrite !getitem_lastw.
+  intros Hin Hlab Hj sk. unfold iteration, Compare.iteration. rewrite !getitem_lastw.
   destruct lab; cbn [bind].
   - symmetry in Hlab. apply label_Equal in Hlab. destruct Hlab as [Hr Hl].
     destruct (lastw_In ref k Hr) as [a Ha]. destruct (lastw_In l10n k Hl) as [b Hb].
@@ -488,7 +494,7 @@ Definition dup_notes : list (@note K) :=
   map (fun kn => NDup true (fst kn) (snd kn)) (find_duplicates eqb l10n).
 
 Lemma compare_unfold r : compare = Ok r ->
-  exists ds, Forall2 (fun x d => iteration x = Ok d) steps ds /\
+  exists ds, Forall2 iter steps ds /\
              r = fold_left acc_app ds (notes_only dup_notes).
 Proof. unfold Compare.compare. intros H. apply run_spec in H. exact H. Qed.
 
@@ -496,7 +502,7 @@ Proof. unfold Compare.compare. intros H. apply run_spec in H. exact H. Qed.
 Lemma counter_is_card (f : acc -> nat) (p : label * K -> bool) r :
   compare = Ok r ->
   (forall a d, f (acc_app a d) = f a + f d) -> f (notes_only dup_notes) = 0 ->
-  (forall x d, iteration x = Ok d -> f d = b2n (p x)) ->
+  (forall x d, iter x d -> f d = b2n (p x)) ->
   f r = length (sel p kr kl).
 Proof.
   intros H Hadd H0 Hp. destruct (compare_unfold r H) as (ds & HF & ->).
@@ -509,7 +515,7 @@ Qed.
 Lemma words_is_sum (f : acc -> nat) (p : label * K -> bool) r :
   compare = Ok r ->
   (forall a d, f (acc_app a d) = f a + f d) -> f (notes_only dup_notes) = 0 ->
-  (forall x d, iteration x = Ok d -> f d = if p x then wref (snd x) else 0) ->
+  (forall x d, iter x d -> f d = if p x then wref (snd x) else 0) ->
   f r = list_sum (map wref (sel p kr kl)).
 Proof.
   intros H Hadd H0 Hp. destruct (compare_unfold r H) as (ds & HF & ->).
@@ -529,7 +535,7 @@ Proof.
 Qed.
 
 Lemma notes_unfold r : compare = Ok r ->
-  exists ds, Forall2 (fun x d => iteration x = Ok d) steps ds /\
+  exists ds, Forall2 iter steps ds /\
              a_notes r = dup_notes ++ concat (map (@a_notes K) ds).
 Proof.
   intros H. destruct (compare_unfold r H) as (ds & HF & ->).
@@ -544,7 +550,7 @@ Proof.
 Qed.
 
 Lemma concat_notes_In (xs : list (label * K)) ds k :
-  Forall2 (fun x d => iteration x = Ok d) xs ds ->
+  Forall2 iter xs ds ->
   (In (NMissing k) (concat (map (@a_notes K) ds)) <-> In k (map snd (filter p_absent xs))) /\
   (In (NObsolete k) (concat (map (@a_notes K) ds)) <-> In k (map snd (filter p_extra xs))).
 Proof.
@@ -800,6 +806,7 @@ Proof.
     + reflexivity.
     + intros [lab k] d Hx.
       destruct (iteration_counts _ _ Hx) as (-> & _ & _ & _ & _ & -> & -> & _ & -> & _).
+      destruct Hx as [sk Hx].
       revert Hx. unfold iteration, Compare.iteration. rewrite !getitem_lastw.
       unfold p, p_missing, p_changed, p_unchanged, p_keys, p_absent, p_shared, refjunk, same.
       cbn [fst snd]. rewrite Hflt.
@@ -812,8 +819,9 @@ Proof.
       * intros _. reflexivity.
 Qed.
 
-Lemma iteration_no_dup x d : iteration x = Ok d -> forall b k n, ~ In (NDup b k n) (a_notes d).
+Lemma iteration_no_dup x d : iter x d -> forall b k n, ~ In (NDup b k n) (a_notes d).
 Proof.
+  intros [sk Hit]; revert Hit.
   destruct x as [lab k0]. unfold iteration, Compare.iteration. rewrite !getitem_lastw.
   assert (Hn : forall b k n (fs : list finding),
              ~ In (@NDup K b k n) (map (fun f => NCheck (f_error f) (f_msg f)) fs)).
@@ -853,6 +861,143 @@ Proof.
   - intros [[([k' n'] & E & _)|([k' n'] & E & Hin)]|Hin]; [discriminate| |destruct (Hno _ Hin)].
     cbn in E. inversion E; subst. apply Hl. exact Hin.
   - intros Hk. left; right. exists (k, n). split; [reflexivity|]. apply Hl. exact Hk.
+Qed.
+
+(* ---- skips: an entity is skipped at most once ----------------------------------- *)
+Notation check_skips := (check_skips merge).
+
+Lemma in_skips_In id sk : in_skips id sk = true <-> In id sk.
+Proof.
+  unfold in_skips. rewrite existsb_exists. split.
+  - intros (y & Hy & E). apply Z.eqb_eq in E. subst. exact Hy.
+  - intros H. exists id. split; [exact H|apply Z.eqb_refl].
+Qed.
+
+Lemma check_skips_in mg id sk fs : In id sk -> Compare.check_skips mg id sk fs = [].
+Proof.
+  revert sk; induction fs as [|f fs IH]; intros sk H; cbn; [reflexivity|].
+  apply in_skips_In in H. rewrite H. cbn. rewrite !andb_false_r.
+  apply IH. apply in_skips_In. exact H.
+Qed.
+
+Lemma check_skips_shape_gen mg id sk fs :
+  Compare.check_skips mg id sk fs = [] \/
+  (Compare.check_skips mg id sk fs = [id] /\ ~ In id sk /\ mg = true /\
+   exists f, In f fs /\ f_error f = true).
+Proof.
+  revert sk; induction fs as [|f fs IH]; intros sk; cbn; [left; reflexivity|].
+  destruct (f_error f) eqn:Ef; cbn [andb].
+  - destruct mg; cbn [andb].
+    + destruct (in_skips id sk) eqn:Ei; cbn [negb].
+      * destruct (IH sk) as [H|(H & Hn & _ & f' & Hf' & Ef')]; [left; exact H|].
+        apply in_skips_In in Ei. contradiction.
+      * right. rewrite check_skips_in by (apply in_or_app; right; left; reflexivity).
+        repeat split; [|exists f; auto].
+        intros Hin. apply in_skips_In in Hin. congruence.
+    + destruct (IH sk) as [H|(_ & _ & Hf & _)]; [left; exact H|discriminate].
+  - destruct (IH sk) as [H|(H & Hn & Hm & f' & Hf' & Ef')]; [left; exact H|].
+    right. repeat split; auto. exists f'. auto.
+Qed.
+
+Lemma check_skips_shape id sk fs :
+  check_skips id sk fs = [] \/
+  (check_skips id sk fs = [id] /\ ~ In id sk /\ merge = true /\
+   exists f, In f fs /\ f_error f = true).
+Proof. apply check_skips_shape_gen. Qed.
+
+Lemma c_id_inj (ents : list cent) e e' :
+  NoDup (map (@c_id K V) ents) -> In e ents -> In e' ents -> c_id e = c_id e' -> e = e'.
+Proof.
+  induction ents as [|a ents IH]; cbn; intros Hnd He He' E; [contradiction|].
+  inversion Hnd as [|? ? Ha Hents]; subst.
+  destruct He as [<-|He], He' as [<-|He']; auto.
+  - exfalso. apply Ha. rewrite E. apply in_map. exact He'.
+  - exfalso. apply Ha. rewrite <- E. apply in_map. exact He.
+Qed.
+
+(* what one iteration appends to skips *)
+Lemma iteration_skips sk lab k d : iteration sk (lab, k) = Ok d ->
+  a_skips d = [] \/
+  exists e, lastw k l10n = Some e /\ a_skips d = [c_id e] /\ merge = true /\
+            (lab = Equal -> ~ In (c_id e) sk).
+Proof.
+  unfold iteration, Compare.iteration. rewrite !getitem_lastw.
+  destruct lab; cbn [bind].
+  - destruct (lastw k ref) as [a|]; cbn [bind]; [|discriminate].
+    destruct (lastw k l10n) as [b|]; cbn [bind]; [|discriminate].
+    assert (Hc : forall st : stats,
+               Ok (mkacc st [] (check_skips (c_id b) sk (chk a b))
+                         (map (fun f => NCheck (f_error f) (f_msg f)) (chk a b))) = Ok d ->
+               a_skips d = [] \/
+               exists e, Some b = Some e /\ a_skips d = [c_id e] /\ merge = true /\
+                         (Equal = Equal -> ~ In (c_id e) sk)).
+    { intros st H; inversion H; subst; cbn.
+      destruct (check_skips_shape (c_id b) sk (chk a b)) as [E|(E & Hn & Hm & _)];
+        [left; exact E|]. right. exists b. auto. }
+    destruct (keyname k); cbn [bind]; [apply Hc|].
+    destruct (c_junk a); cbn [bind]; [discriminate|].
+    destruct (equals eqb veq a b); cbn [bind]; apply Hc.
+  - destruct (lastw k ref) as [a|]; cbn [bind]; [|discriminate].
+    destruct (c_junk a); [|destruct (flt k)]; intros H; inversion H; subst; cbn; left; reflexivity.
+  - destruct (lastw k l10n) as [b|]; cbn [bind]; [|discriminate].
+    destruct (c_junk b).
+    + intros H; inversion H; subst; cbn. clear H.
+      assert (Hm : forall mg : bool, mg = merge ->
+                (if mg then [c_id b] else []) = [] \/
+                exists e, Some b = Some e /\ (if mg then [c_id b] else []) = [c_id e] /\
+                          merge = true /\ (Add = Equal -> ~ In (c_id e) sk)).
+      { intros [|] Em; [|left; reflexivity]. right. exists b. repeat split; auto. discriminate. }
+      apply (Hm merge eq_refl).
+    + destruct (flt k); intros H; inversion H; subst; cbn; left; reflexivity.
+Qed.
+
+Lemma run_skips (steps : list (label * K)) : forall (a r : acc),
+  NoDup (map (@c_id K V) l10n) -> NoDup (map snd steps) ->
+  NoDup (a_skips a) ->
+  (forall id, In id (a_skips a) ->
+     merge = true /\ exists k e, lastw k l10n = Some e /\ c_id e = id /\ ~ In k (map snd steps)) ->
+  run a steps = Ok r ->
+  NoDup (a_skips r) /\
+  (forall id, In id (a_skips r) ->
+     merge = true /\ exists k e, lastw k l10n = Some e /\ c_id e = id).
+Proof.
+  induction steps as [|[lab k] steps IH]; intros a r Hid Hnd Ha Hinv H; cbn in H.
+  - inversion H; subst. split; [exact Ha|]. intros id Hin.
+    destruct (Hinv id Hin) as (Hm & k & e & He & Hi & _). eauto.
+  - destruct (iteration (a_skips a) (lab, k)) as [d|t] eqn:E; [|discriminate].
+    cbn in Hnd. inversion Hnd as [|? ? Hk Hnd']; subst.
+    apply (IH (acc_app a d) r Hid Hnd'); [| |exact H]; cbn [acc_app a_skips].
+    + destruct (iteration_skips _ _ _ _ E) as [->|(e & He & -> & Hm & Heq)];
+        [rewrite app_nil_r; exact Ha|].
+      apply NoDup_app_disjoint; [exact Ha|constructor; [intros []|constructor]|].
+      intros y Hy [<-|[]].
+      destruct (Hinv _ Hy) as (_ & k' & e' & He' & Hi & Hk').
+      apply lastw_Some_In in He, He'. destruct He as [Hin Hke], He' as [Hin' Hke'].
+      assert (e' = e) by (apply (c_id_inj l10n); assumption). subst e'.
+      apply Hk'. left. cbn. congruence.
+    + intros id Hin. apply in_app_or in Hin. destruct Hin as [Hin|Hin].
+      * destruct (Hinv id Hin) as (Hm & k' & e' & He' & Hi & Hk').
+        split; [exact Hm|]. exists k', e'. repeat split; auto.
+        intros Hc. apply Hk'. right. exact Hc.
+      * destruct (iteration_skips _ _ _ _ E) as [E0|(e & He & E1 & Hm & _)];
+          [rewrite E0 in Hin; destruct Hin|].
+        rewrite E1 in Hin. destruct Hin as [<-|[]].
+        split; [exact Hm|]. exists k, e. auto.
+Qed.
+
+(* when merging, every skipped entity is the last localized entity of some key and is
+   skipped once, however many errors the checker reports for it; otherwise nothing is *)
+Theorem compare_skips r :
+  NoDup (map (@c_id K V) l10n) -> compare = Ok r ->
+  NoDup (a_skips r) /\
+  (forall id, In id (a_skips r) ->
+     merge = true /\ exists k e, last_ent l10n k e /\ c_id e = id).
+Proof.
+  intros Hid H. unfold Compare.compare in H.
+  destruct (run_skips _ _ r Hid (steps_NoDup kr kl) (NoDup_nil _)
+                      (fun id (Hf : In id []) => match Hf with end) H) as [H1 H2].
+  split; [exact H1|]. intros id Hin. destruct (H2 id Hin) as (Hm & k & e & He & Hi).
+  split; [exact Hm|]. exists k, e. split; [apply last_ent_iff; exact He|exact Hi].
 Qed.
 
 (* the only way to raise: Junk.equals on a reference Junk whose generated key is
